@@ -86,6 +86,10 @@ pub enum Op {
     /// one call on adapter `a`; the scripted inner object runs `steps` and returns `outcome`
     ACall { a: u32, method: AMethod, steps: Vec<Op>, outcome: AOutcome },
     ADrop { a: u32 },
+    /// `host` is an operation that takes a property closure (AddProps, LAddProps, LWithProps,
+    /// Child / ChildLocal / LEnter with np > 0); its closure runs `steps` on the calling thread
+    /// before returning the properties (re-entrant use of the API from user closures)
+    Reent { host: Box<Op>, steps: Vec<Op> },
 }
 
 impl Op {
@@ -120,6 +124,7 @@ impl Op {
             Op::ANew { .. } => "adapter_new",
             Op::ACall { .. } => "adapter_call",
             Op::ADrop { .. } => "adapter_drop",
+            Op::Reent { .. } => "reentrant_closure",
         }
     }
 }
@@ -203,6 +208,7 @@ pub fn val(k: u32) -> String {
 pub fn flat_len(op: &Op) -> usize {
     match op {
         Op::ACall { steps, .. } => 2 + steps.iter().map(flat_len).sum::<usize>(),
+        Op::Reent { steps, .. } => 2 + steps.iter().map(flat_len).sum::<usize>(),
         _ => 1,
     }
 }
